@@ -32,20 +32,24 @@ RULE = ("parameters on the rational grid k/1000: cut-off / centre frequency in [
         "longer than the delay with alpha != 0 (comb), >= 3 distinct parameter samples (stream)")
 EXHAUSTIVE = {"quick": False, "thorough": False}
 TOL = Fraction(1, 10 ** 9)
-TOL_SAMPLED = Fraction(1, 10 ** 5)
+TOL_SAMPLED = Fraction(1, 10 ** 7)
 trusted_base = [
   "TOLERANCE POLICY (assumed rounding bound): a double computed by the library is accepted as equal to the model's "
   "real expression when |model - double| <= 1e-9 * max(1, |double|) (measured worst case on the grid: 4e-11); "
   "contracts evaluated on the implementation (abs(freq_response)) are accepted within 1e-9 absolute; only the first "
-  "section of gammatone.sampled (a degree 2*eta-1 numerator evaluated near DC with cancellation, measured 1.3e-6) "
-  "gets 1e-5. A design error smaller than these bounds is not detected.",
+  "section of gammatone.sampled (a degree 2*eta-1 numerator whose evaluation cancels near DC / Nyquist) gets 1e-7 "
+  "(contract and coefficients) and is exercised only on the REGION freq in [0.05, pi-0.05] x bandwidth in [0.02, 1] for "
+  "eta = 1..6 (measured worst deviation there: 1e-9 at eta = 6) and freq in [0.01, pi-0.01] x bandwidth in [0.01, 1] for "
+  "the default eta = 4 (measured 1.5e-9). Outside (both freq-or-pi-freq and bandwidth below ~1e-2) the unchanged "
+  "library loses unit gain by roundoff: 7e-6 at eta = 4, 3e-3 at eta = 5, 0.8 at eta = 6 in the corner (1e-3, 1e-3); "
+  "that corner is not checked for gammatone.sampled. A design error smaller than these bounds is not detected.",
   "enclosure goals are decided by the `interval` tactic (CoqInterval, 100-bit interval arithmetic, primitive "
   "63-bit integers) inside Coq and closed with Qed; the float is passed as its exact rational value "
   "(float.as_integer_ratio). The generated lemmas (build/C13/encl_*.v) depend on the four stdlib real-number axioms "
   "plus the 51 Uint63.* / PrimInt63.* primitive-integer axioms of Coq's standard library; the theorems of Prop.v / "
   "Prop2.v depend only on the four real-number axioms (no numerical tactic in their proofs)",
-  "gammatone.sampled first section: the iterated derivative of the model is replaced by closed forms for eta = 2, 3, 4 "
-  "(Sampled.v, proved by ring) before the enclosure; other eta are enclosed by plain unfolding (eta = 1 only)",
+  "gammatone.sampled first section: the iterated derivative of the model is replaced by closed forms for eta = 2..6 "
+  "(Sampled.v, proved by ring, each from the previous one by one step) before the enclosure; eta = 1 needs none",
   "design parameters are the doubles nearest to k/1000; the model is evaluated at the exact value of that double",
   "math.cos/sin/exp/sqrt of the platform libm are what the library calls; their error is inside the tolerance",
   "resonant frequency of resonator.freq_poles_exp / freq_z_exp is computed by the harness as math.acos(...) "
@@ -198,6 +202,10 @@ SHAPE = {"LPpole": (1, 2), "HPpole": (1, 2), "LPpole_exp": (1, 2), "HPpole_exp":
          "LPz": (2, 2), "HPz": (2, 2), "LPz_exp": (2, 2), "HPz_exp": (2, 2),
          "RSpoles_exp": (1, 3), "RSfreq_poles_exp": (1, 3), "RSz_exp": (3, 3), "RSfreq_z_exp": (3, 3),
          "GTsampledN": (1, 3), "GTslaney": (2, 3)}
+# gammatone.sampled is exercised for freq in [0.05, pi - 0.05], bandwidth in [0.02, 1] (all eta 1..6) and, for the
+# default eta = 4, freq in [0.01, pi - 0.01], bandwidth in [0.01, 1]
+SAMPLED_REGION = (50, 3090, 20)
+SAMPLED_PHASES = [0, 1047, -785, 1571, 3000, -2500]
 EDGE_W = [1, 2, 5, 10, 100, 524, 785, 1000, 1570, 1571, 2000, 2356, 2618, 3000, 3100, 3130, 3139, 3140]
 EDGE_BW = [1, 2, 10, 50, 100, 300, 500, 700, 999, 1000]
 
@@ -241,17 +249,30 @@ def gen_contract(tier, rng):
   nr = 4 if tier == "quick" else 60
   gpts = [(785, 100), (100, 50), (2356, 300), (1571, 1000), (10, 10), (3130, 500)] + \
          [(rng.randrange(5, 3137), rng.randrange(5, 1001)) for _ in range(nr)]
-  for kw, kbw in gpts:
+  for kw, kbw in gpts:   # slaney / klapuri take no order parameter
     if near_zexp_boundary(kw, 2 * kbw):
       continue
     for name, nsec in (("gammatone.slaney", 4), ("gammatone.klapuri", 4)):
       for sec in range(nsec):
         yield {"design": name, "kw": kw, "kbw": kbw, "sec": sec, "tags": [name]}
-    etas = [(4, 0)] if tier == "quick" else [(4, 0), (2, 300), (1, 0), (3, 1571)]
-    for eta, kph in etas:
-      for sec in range(min(eta, 2)):
+  # gammatone.sampled: every order eta = 1..6 (1 is the boundary: no derivative), phases of both signs
+  # and beyond pi/2, inside SAMPLED_REGION (see trusted_base); the default call (no phase / eta keyword) too
+  nr = 2 if tier == "quick" else 40
+  spts = [(785, 100), (50, 20), (3090, 20), (1571, 1000)] + \
+         [(rng.randrange(SAMPLED_REGION[0], SAMPLED_REGION[1] + 1), rng.randrange(SAMPLED_REGION[2], 1001)) for _ in range(nr)]
+  for i, (kw, kbw) in enumerate(spts):
+    for eta in range(1, 7):
+      kph = SAMPLED_PHASES[(i + eta) % len(SAMPLED_PHASES)]
+      if tier != "quick":
+        kph = rng.choice(SAMPLED_PHASES + [rng.randrange(-3141, 3142)])
+      for sec in sorted(set([0, 1, eta - 1]) & set(range(eta))):
         yield {"design": "gammatone.sampled", "kw": kw, "kbw": kbw, "sec": sec, "eta": eta, "kph": kph,
-               "tags": ["gammatone.sampled", "eta=%d" % eta]}
+               "tags": ["gammatone.sampled", "eta=%d" % eta, "phase" + ("=0" if kph == 0 else "<0" if kph < 0 else ">0")]}
+  # default order (eta = 4) on the wider region [0.01, pi - 0.01] x [0.01, 1]
+  for kw, kbw in [(10, 10), (3130, 10), (10, 1000)] + [(rng.randrange(10, 3131), rng.randrange(10, 1001)) for _ in range(nr)]:
+    for sec in (0, 3):
+      yield {"design": "gammatone.sampled", "kw": kw, "kbw": kbw, "sec": sec, "eta": 4, "kph": 0, "default": True,
+             "tags": ["gammatone.sampled", "eta=default"]}
 
 
 def build_design(c):
@@ -269,8 +290,12 @@ def build_design(c):
     f = sd[strat](w, bw)
     return f, type(f).__name__
   if strat == "sampled":
-    g = sd.sampled(w, bw, phase=grid_param(c["kph"]) if c["kph"] else 0, eta=c["eta"])
-    assert len(g) == c["eta"]
+    if c.get("default"):
+      g = sd.sampled(w, bw)
+    else:
+      g = sd.sampled(w, bw, phase=grid_param(c["kph"]) if c["kph"] else 0, eta=c["eta"])
+    if len(g) != c["eta"]:
+      return g[0], "cascade-of-%d-sections-instead-of-%d" % (len(g), c["eta"])
   else:
     g = sd[strat](w, bw)
     assert len(g) == 4
@@ -577,7 +602,7 @@ def design_term(c):
   if fam == "resonator":
     return "(resonator_%s %s %s)" % (strat, w, bw)
   if strat == "sampled":
-    ph = rlit(Fraction(grid_param(c["kph"]))) if c["kph"] else "0"
+    ph = rlit(Fraction(grid_param(c["kph"]))) if c["kph"] else "0"   # negative phases: (-n / d)
     return "(nth %d (gammatone_sampled %s %s %s %d) nofilt)" % (c["sec"], w, bw, ph, c["eta"])
   return "(nth %d (gammatone_%s %s %s) nofilt)" % (c["sec"], strat, w, bw)
 
@@ -607,8 +632,10 @@ def make_goals(tier, rng):
       for k in range(ln):
         if which == "fden" and k == 0:
           continue   # exactly 1: checked by corr_contract
-        if sampled0 and which == "fnum" and tier == "quick" and n_sampled0 >= 8 and k not in (1, ln - 1):
-          continue   # ~4 s per goal: quick keeps all coefficients of the first case, then two per case
+        if sampled0 and which == "fnum" and tier == "quick" and not (c["eta"] <= 3 and c["kw"] == 785) and k not in (1, ln - 1):
+          continue   # seconds per goal: quick keeps all coefficients for eta <= 3 at one point, else two per case
+        if sampled0 and which == "fnum" and tier == "quick" and c["eta"] >= 5 and c["kw"] not in (785, 50):
+          continue   # eta = 5, 6 (about 10 s per goal): two points in quick, everything in thorough
         v = vals[k]
         stmt = "verdict (nth %d (%s %s) 0) %s %s" % (k, which, term, rlit(v), rlit(tol_for(v, sampled0 and which == "fnum")))
         # the first section of gammatone.sampled goes through the closed form of the iterated derivative
